@@ -18,7 +18,7 @@ import (
 
 func (r *rs) header() {
 	c := r.c
-	fn := c.Func(pkgU, "", "waitRdbDump")
+	fn := r.fn(pkgU, "", "waitRdbDump")
 	if fn == nil {
 		return
 	}
@@ -97,7 +97,7 @@ func (r *rs) header() {
 		c.Undecidedf("instances", "R1.header", fn.Decl.Pos(), "expected exactly one Read site on the stream, found %d", len(reads))
 		return
 	}
-	readPt, ok := g.Find(reads[0])
+	readPt, ok := flow.PointOf(g, reads[0])
 	if !ok {
 		c.Undecidedf("R1.header", "waitRdbDump/graph", reads[0].Pos(), "the Read is not in the goroutine's control-flow graph")
 		return
